@@ -8,6 +8,10 @@ import Gql.Proofs.TypeParse
 import Gql.Proofs.ValueRoundtrip
 import Gql.Proofs.Printable
 import Gql.Proofs.ExecPrint
+import Gql.Proofs.ExecPrint2
+import Gql.Proofs.ExecPrint4
+import Gql.Proofs.ExecDoc3
+import Gql.Proofs.ParseWfType
 /-!
 # C08 — Printing a parsed document and parsing it again gives the same AST
 
@@ -158,6 +162,25 @@ theorem roundtrip_type (w : Widths) (cfg : Cfg) (hm : cfg.maxTokens = none) (t :
     ∃ text, printAst w t.toAst = .ok text ∧ parseSource .type cfg text = .ok t.toAst :=
   ⟨t.print, (type_print_lex w t hwf).1, parseSource_type_print cfg hm t hwf hsh⟩
 
+open Gql.Syntax in
+/-- **`parse_wf` for the TYPE entry point** (the converse of the typed-tree hypothesis): every tree
+`parse_type` returns — any source text, any flags, any `max_tokens` — is the tree of a `Ty` that is
+well formed (its names are lexically Names: the lexer's NAME tokens carry valid names,
+`readNextToken_nameOk`) and parser-shaped. -/
+theorem parse_wf_type (cfg : Cfg) (src : List Nat) (d : Ast) (h : parseSource .type cfg src = .ok d) :
+    ∃ t : Ty, t.wf = true ∧ TyP.shaped t = true ∧ d = t.toAst :=
+  parseSource_type_wf cfg src d h
+
+open Gql.Syntax in
+/-- **C08 for the TYPE entry point with no well-formedness hypothesis** — `roundtrip_full`
+instantiated for `parse_type`: whatever source text parses (no `max_tokens`) prints, without a
+crash, to text that parses to the same tree. -/
+theorem roundtrip_type_parsed (w : Widths) (cfg : Cfg) (hm : cfg.maxTokens = none) (src : List Nat) (d : Ast)
+    (h : parseSource .type cfg src = .ok d) :
+    ∃ text, printAst w d = .ok text ∧ parseSource .type cfg text = .ok d := by
+  obtain ⟨t, hwf, hsh, rfl⟩ := parse_wf_type cfg src d h
+  exact roundtrip_type w cfg hm t hwf hsh
+
 -- `[[Foo!]]!` is parser-shaped, `Foo!!` is not
 example : Gql.Syntax.TyP.shaped (Ty.nonNull (.list (.list (.nonNull (.named [70, 111, 111]))))) = true ∧
     Gql.Syntax.TyP.shaped (Ty.nonNull (.nonNull (.named [70, 111, 111]))) = false := by decide
@@ -198,48 +221,104 @@ example : Val.wf true (.list [.int [49], .str [97, 10, 98] true, .obj [([97], .e
         Or.inr ⟨101, [43], [49, 48], rfl, Or.inr rfl, Or.inr (Or.inl rfl), by decide⟩⟩, rfl, rfl⟩
 
 open Gql.Syntax in
-/-- **C08-3 `render_lex` for executable documents (stage 1).**  The text printed for a document of
-operations (shorthand, or keyword with optional name and directives) and fragment definitions whose
-selection sets hold fields (alias, arguments, directives, nested selection sets), fragment spreads
-and inline fragments — in every layout (`wrapped_line_and_args` one-line or wrapped, `block` with
-nested `indent`) — lexes to exactly the document's tokens.  Not yet covered: variable definitions,
-descriptions, fragment arguments, type-system definitions and extensions. -/
-theorem render_lex_document_partial (w : Widths) (hw : 4 ≤ w.object) (defs : List Def)
-    (hwf : Exec.defsWf defs) : Lexes true (Exec.printDoc w defs) (Exec.defsKvs defs) :=
-  lexes_doc w hw escape_table_entries_decode escape_table_covers_required defs hwf
+/-- **C08-3 `render_lex` for documents (stages 1–3).**  The text printed for a document whose
+definitions are
+
+* operations (shorthand, or keyword with optional name, variable definitions and directives) and
+  fragment definitions (with variable definitions when `fa`, the `experimental_fragment_arguments`
+  flag, is set), each with an optional description; variable definitions with optional description,
+  default value and constant directives, on one line or one per line (`has_multiline_items`);
+  selection sets of fields (alias, arguments, directives, nested selection sets), fragment spreads
+  and inline fragments, in every layout (`wrapped_line_and_args`, `block`/`indent`);
+* type-system definitions: `schema` (operation types), `scalar`, `type` / `interface`
+  (`implements A & B`, field definitions with argument definitions in the one-line and the indented
+  multi-line layout of `leave_field_definition`), `union` (`= A | B`), `enum` (value definitions),
+  `input` (input value definitions with defaults) and `directive` definitions (arguments,
+  `repeatable`, locations `A | B`, and directives on the definition when `dd`, the
+  `experimental_directives_on_directive_definitions` flag, is set) — each with optional description
+  (quoted or block string) and constant directives;
+* type-system extensions: `extend schema`, `extend scalar`, `extend type` / `extend interface`,
+  `extend union`, `extend enum`, `extend input` (each extending something: directives, interfaces,
+  members or a non-empty block, as the parser requires);
+
+lexes to exactly the document's tokens `Exec.gdefsKvs`, **including the `query` keyword the printer
+puts before a shorthand query that follows a definition not ending with a block** (fix e7002aa: the
+token list has `query` exactly there; also after `extend schema @d`, `extend type T @d`, …).  Not yet
+covered: arguments on fragment spreads (experimental flag) and `extend directive @d …`
+(`DirectiveExtensionNode`, experimental flag). -/
+theorem render_lex_document_partial (w : Widths) (hw : 4 ≤ w.object) (fa dd : Bool) (defs : List GDef)
+    (hwf : Exec.gdefsWf fa dd defs) : Lexes true (Exec.printGDoc w defs) (Exec.gdefsKvs true defs) :=
+  lexes_gdoc w hw escape_table_entries_decode escape_table_covers_required fa dd defs hwf
 
 open Gql.Syntax in
-/-- **C08 for the DOCUMENT entry point, stage 1, with the real parser model.**  For every
-well-formed executable document of the sub-grammar above (`Exec.defsWf`: operation types and names
-valid, fragment names other than `on`, non-empty selection sets, well-formed argument values), all
+/-- **C08 for the DOCUMENT entry point, stages 1–3, with the real parser model.**  For every
+well-formed document of the sub-grammar above (`Exec.gdefsWf`: names valid, operation types and
+directive locations from the tables, fragment names other than `on`, enum values other than
+`true`/`false`/`null`, non-empty selection sets and `schema` blocks, descriptions of scalar values
+and block descriptions block-representable, types and constant values well formed, variable
+definitions on a fragment / directives on a directive definition only when the flag is set), all
 widths with `object ≥ 4`, either setting of both experimental flags, no `max_tokens`: the printer
-model prints it without crashing and `parse` of the printed text is the same tree.  The missing
-node kinds are listed at `render_lex_document_partial`; the full statement is `roundtrip_full`. -/
+model prints it without crashing and `parse` of the printed text is the same tree — in particular a
+shorthand query printed as `query { … }` after `scalar S`, `type T`, `union U`, `directive @d on Q`
+… or an extension without a block parses back to the shorthand tree.  The missing node kinds are listed at
+`render_lex_document_partial`; the full statement is `roundtrip_full`. -/
 theorem roundtrip_document_partial (w : Widths) (hw : 4 ≤ w.object) (cfg : Cfg) (hm : cfg.maxTokens = none)
-    (defs : List Def) (hne : defs ≠ []) (hwf : Exec.defsWf defs) :
-    ∃ text, printAst w (Exec.docAst cfg.fragArgs defs) = .ok text ∧
-      parseSource .document cfg text = .ok (Exec.docAst cfg.fragArgs defs) :=
-  ⟨Exec.printDoc w defs, printAst_doc w cfg.fragArgs defs,
-    parseSource_doc_print cfg hm w hw escape_table_entries_decode escape_table_covers_required defs hne hwf⟩
+    (defs : List GDef) (hne : defs ≠ []) (hwf : Exec.gdefsWf cfg.fragArgs cfg.dirOnDir defs) :
+    ∃ text, printAst w (Exec.gdocAst cfg.fragArgs cfg.dirOnDir defs) = .ok text ∧
+      parseSource .document cfg text = .ok (Exec.gdocAst cfg.fragArgs cfg.dirOnDir defs) :=
+  ⟨Exec.printGDoc w defs, printAst_gdoc w cfg.fragArgs cfg.dirOnDir defs hwf,
+    parseSource_gdoc_print cfg hm w hw escape_table_entries_decode escape_table_covers_required defs hne hwf⟩
 
--- non-vacuity: `query Q @d(a: true) { x: f(a: null) @e { ...F ... on T { g } } }  fragment F on T { h }`
+-- non-vacuity:
+-- `"d" query Q($v: [T!] = [A] @c) @d(a: true) { x: f(a: null) @e { ...F ... on T { g } } }`
+-- `fragment F($w: T) on T { h }`
+-- `"""t""" type T implements I & J @k { "f" f(a: T = true): [T] @m }`
+-- `enum E { A @x B }`   `union U = T | V`   `directive @d(a: T) repeatable on FIELD | QUERY`
+-- `extend type T @k`   `extend schema { query: T }`   `scalar S`
+-- `{ g }` (printed `query { g }`: it follows `scalar S`)
 open Gql.Syntax in
-example : Exec.defsWf
-    [.op (S "query") [81] [⟨[100], [([97], .bool true)]⟩]
+example : Exec.gdefsWf true false
+    [.x (.op (some ([100], false)) (S "query") [81]
+      [⟨none, [118], .list (.nonNull (.named [84]) ), some (.list [.enum [65]]), [⟨[99], []⟩]⟩]
+      [⟨[100], [([97], .bool true)]⟩]
       [.field [120] [102] [([97], .null)] [⟨[101], []⟩]
-        [.spread [70] [], .inline [84] [] [.field [] [103] [] [] []]]],
-     .frag [70] [84] [] [.field [] [104] [] [] []]] := by
-  simp (config := { decide := true }) [Exec.defsWf, Exec.defWf, Exec.isOpType, Exec.dirsWf, Exec.dirWf,
-    Exec.argsWf, Val.wfFields, Val.wf, Exec.selsWf, Exec.selWf]
+        [.spread [70] [], .inline [84] [] [.field [] [103] [] [] []]]]),
+     .x (.frag none [70] [⟨none, [119], .named [84], none, []⟩] [84] [] [.field [] [104] [] [] []]),
+     .t (.object false (some ([116], true)) [84] [[73], [74]] [⟨[107], []⟩]
+       [⟨some ([102], false), [102], [⟨none, [97], .named [84], some (.bool true), []⟩], .list (.named [84]),
+         [⟨[109], []⟩]⟩]),
+     .t (.enum none [69] [] [⟨none, [65], [⟨[120], []⟩]⟩, ⟨none, [66], []⟩]),
+     .t (.union none [85] [] [[84], [86]]),
+     .t (.directive none [100] [⟨none, [97], .named [84], none, []⟩] [] true [S "FIELD", S "QUERY"]),
+     .e (.object false [84] [] [⟨[107], []⟩] []),
+     .e (.schema [] [(S "query", [84])]),
+     .t (.scalar none [83] []),
+     .x (.op none (S "query") [] [] [] [.field [] [103] [] [] []])] := by
+  intro d hd
+  simp only [List.mem_cons, List.not_mem_nil, or_false] at hd
+  rcases hd with rfl | rfl | rfl | rfl | rfl | rfl | rfl | rfl | rfl | rfl <;>
+  simp (config := { decide := true }) [Exec.gdefWf, Exec.tdefWf, Exec.edefWf, Exec.fdWf, Exec.evWf, Exec.ivdsWf,
+    Exec.namesWf, Exec.isLocation, Exec.xdefWf, Exec.isOpType, Exec.dirsWfC, Exec.dirWfC, Exec.argsWfC,
+    Exec.argsWf, Val.wfFields, Val.wfList, Val.wf, Exec.selsWf, Exec.selWf, Exec.varDefsWf, Exec.varDefWf,
+    Exec.descWf, Ty.wf, TyP.shaped]
 
 open Gql.Syntax in
 /-- The document-level statement of C08 against an abstract parser (the crash-faithful parser model
 is C01's; it is a parameter here): whatever parses, prints (no crash) to text that parses, with the
 same flags, to the same tree — hence printing is a fixed point.  **Proved** for the type, value and
-const-value entry points with the real parser model (`roundtrip_type`, `roundtrip_value`) and for a
-sub-grammar of executable documents (`roundtrip_document_partial`); **not proved** for the remaining
-node kinds (variable definitions, descriptions, fragment arguments, type-system definitions and
-extensions), nor the converse `parse_wf` (every parsed tree is one of the typed trees).
+const-value entry points with the real parser model (`roundtrip_type`, `roundtrip_value`) and for
+documents of executable definitions, type-system definitions and extensions
+(`roundtrip_document_partial`, stages 1–3: everything except arguments on fragment spreads and
+`extend directive`, both behind experimental flags), each for
+the typed well-formed trees, and with no hypothesis at all for the type entry point
+(`parse_wf_type`, `roundtrip_type_parsed`); **not proved**: those two node families, and the converse
+`parse_wf` for values and documents (every tree `parse` returns is one of the typed well-formed
+trees — besides NAME tokens, done, it needs the inversion of the lexer for INT/FLOAT token texts and
+for STRING values.  A STRING / BLOCK_STRING value is a list of scalar values unless the source text
+itself holds a leading surrogate immediately followed by a trailing surrogate inside the string —
+`read_string` accepts such a pair verbatim (`is_supplementary_code_point`), a lone surrogate is a
+syntax error, and `\uD83D\uDE00` escapes decode to one scalar value; values with such a verbatim
+pair are exactly what `isScalar` in `printString_roundtrip` / `Val.wf` / `Exec.descWf` excludes).
 What is proved: every string token of the printed text reads back to its value
 (`printString_roundtrip`, `block_roundtrip`, `block_indent_roundtrip`, `lex_block_representable`)
 and the type sub-grammar (`type_print_lex`).  On the implementation the relation below is
